@@ -33,7 +33,10 @@ struct UlaBus<'a> {
 
 impl<'a> UlaBus<'a> {
     fn peek(&self, addr: u16) -> u8 {
-        if let Some(x) = self.overlay.iter().rev().find(|x| x.0 == addr) {
+        // a write is seen through every window that shows the same RAM bank (128K: bank 2 or 5 paged at 0xC000)
+        let key = |a: u16| (self.map.window(a as usize / 16384), a as usize % 16384);
+        let k = key(addr);
+        if let Some(x) = self.overlay.iter().rev().find(|x| key(x.0) == k) {
             return x.1;
         }
         self.emu.peek(addr)
